@@ -228,5 +228,16 @@ def r6_text_field_provenance(chk):
 PROVENANCE_FIELDS = ('description', 'reference', 'units', 'organization', 'contactinfo', 'displayhint', 'lastupdated',
                      'revisions', 'productrelease')
 
+
+def r8_reader_returns_the_text_as_stored(chk):
+    """texts are intact only if the reader hands the lexer the characters of the file: binary read + decode, no
+    text-mode newline translation (shared with C14.R1)"""
+    from rules.C14 import r1_file_reader
+    common.reuse(chk, r1_file_reader, ('C14.R1',), 'C15.R8',
+                 'FileReader.getData opens the file in binary mode and returns decode(read(maxMibSize)): line breaks and '
+                 'every other character inside quoted texts reach the lexer as stored (C14.R1)',
+                 keep=lambda o: o.key.split('/')[-1] in ('binary-read', 'size-cap', 'same-path-stat-and-open'), floor=2)
+
+
 RULES = [r1_gated_stores, r2_switch_plumbing, r3_text_handlers, r4_literal_positions, r5_text_tokens_verbatim,
-         r6_text_field_provenance, r7_only_texts_are_gated]
+         r6_text_field_provenance, r7_only_texts_are_gated, r8_reader_returns_the_text_as_stored]
